@@ -601,7 +601,7 @@ def metric_cases(ctx, rng, quick):
         # storage dtype of the adjacency (the values are exactly representable in every one of them): the metrics symmetrise their
         # input with directed2undirected, which must keep fractional weights of any floating dtype and must not wrap narrow integers
         dt = rng.choice({'unit': ['float64', 'bool', 'int64', 'float32', 'int32'], 'int': ['float64', 'int64', 'float32', 'int32', 'uint8'],
-                         'dyadic': ['float64', 'float32', 'float32']}[wk])
+                         'dyadic': ['float64', 'float32', 'float32', 'float64_dup']}[wk] + (['float64_dup'] if kind != 'directed' else []))
         cases.append(dict(n=n, kind=kind, weights=wk, edges=sorted((u, v, x) for (u, v), x in E.items()), rows=rows, dtype=dt))
     return cases
 
